@@ -119,3 +119,356 @@ def obligations(tier):
             for nb in range(N + 1):
                 obs.append(_mk_binop_leaf(op, na, nb))
     return obs
+
+
+# ----------------------------------------------------------------------------- interior payloads, tensor-owned
+def _leaf_empty(vs):
+    for v in vs:
+        if v != 0:
+            return False
+    return True
+
+
+def binop_interior(sk, *xs):
+    """a OP b where payloads are sub-fibers of tensor-owned trees; an all-default / zero-length sub-fiber is absent;
+    neither operand tree nor its tensor's rank lists change."""
+    sa_, sb_, op = sk["a"], sk["b"], sk["op"]   # e.g. [1, 0] = two children with 1 and 0 leaf elements
+    pos = 0
+    na, nb = len(sa_), len(sb_)
+    ac = list(xs[pos:pos + na]); pos += na
+    a_kids = []
+    a_vals = []
+    for n in sa_:
+        cs = list(xs[pos:pos + n]); vs = list(xs[pos + n:pos + 2 * n]); pos += 2 * n
+        a_kids.append(Fiber(cs, vs)); a_vals.append(vs)
+    bc = list(xs[pos:pos + nb]); pos += nb
+    b_kids = []
+    b_vals = []
+    for n in sb_:
+        cs = list(xs[pos:pos + n]); vs = list(xs[pos + n:pos + 2 * n]); pos += 2 * n
+        b_kids.append(Fiber(cs, vs)); b_vals.append(vs)
+    ta = Tensor.fromFiber(["M", "K"], Fiber(ac, a_kids))
+    tb = Tensor.fromFiber(["M", "K"], Fiber(bc, b_kids))
+    a, b = ta.getRoot(), tb.getRoot()
+    sa, sb = raw(a), raw(b)
+    rsa, rsb = rank_sizes(ta), rank_sizes(tb)
+    if op == "and":
+        z = a & b
+    elif op == "or":
+        z = a | b
+    elif op == "xor":
+        z = a ^ b
+    else:
+        z = a - b
+    got = [(c, p) for c, p in z]
+    ia = [i for i in range(na) if not _leaf_empty(a_vals[i])]
+    ib = [j for j in range(nb) if not _leaf_empty(b_vals[j])]
+    exp = []
+    for i in ia:
+        jm = None
+        for j in ib:
+            if bc[j] == ac[i]:
+                jm = j
+        exp.append((ac[i], i, jm))
+    for j in ib:
+        found = False
+        for i in ia:
+            if ac[i] == bc[j]:
+                found = True
+        if not found:
+            exp.append((bc[j], None, j))
+    if op == "and":
+        exp = [e for e in exp if e[1] is not None and e[2] is not None]
+    elif op == "xor":
+        exp = [e for e in exp if e[1] is None or e[2] is None]
+    elif op == "sub":
+        exp = [e for e in exp if e[1] is not None and e[2] is None]
+    exp.sort(key=lambda e: e[0])
+    if len(got) != len(exp):
+        return fail("yielded %d elements, expected %d" % (len(got), len(exp)))
+    for k in range(len(exp)):
+        c, i, j = exp[k]
+        gc, gp = got[k]
+        if gc != c:
+            return fail("coordinate differs")
+        if op == "sub":
+            if gp is not a.payloads[i]:
+                return fail("- payload identity")
+            continue
+        gp = pv(gp)
+        if op == "and":
+            if gp[0] is not a.payloads[i] or gp[1] is not b.payloads[j]:
+                return fail("& payload identity")
+            continue
+        mask = ("A" if i is not None else "") + ("B" if j is not None else "")
+        if gp[0] != mask:
+            return fail("mask")
+        if i is not None:
+            if gp[1] is not a.payloads[i]:
+                return fail("a-side identity")
+        else:
+            d = pv(gp[1])
+            if not isinstance(d, Fiber) or len(d.coords) != 0:
+                return fail("absent a side is not a fresh empty fiber")
+        if j is not None:
+            if gp[2] is not b.payloads[j]:
+                return fail("b-side identity")
+        else:
+            d = pv(gp[2])
+            if not isinstance(d, Fiber) or len(d.coords) != 0:
+                return fail("absent b side is not a fresh empty fiber")
+    if raw(a) != sa or raw(b) != sb:
+        return fail("an operand tree changed")
+    if rank_sizes(ta) != rsa or rank_sizes(tb) != rsb:
+        return fail("rank lists of an operand's tensor changed: %s->%s %s->%s" % (rsa, rank_sizes(ta), rsb, rank_sizes(tb)))
+    if not mirror(ta) or not mirror(tb):
+        return False
+    return True
+
+
+def _interior_params(sa_, sb_):
+    ps, pre = [], []
+    for tag, sk in (("a", sa_), ("b", sb_)):
+        top = names(tag, len(sk))
+        ps += top
+        pre += chain_pre(top)
+        for i, n in enumerate(sk):
+            cs = names("%s%dc" % (tag, i), n)
+            ps += cs + names("%s%dv" % (tag, i), n)
+            pre += chain_pre(cs)
+    return ps, pre
+
+
+def _mk_interior(op, sa_, sb_, budget=None):
+    ps, pre = _interior_params(sa_, sb_)
+    return Ob("%s/interior/%s-%s" % (op, "".join(map(str, sa_)) or "e", "".join(map(str, sb_)) or "e"), "binop_interior",
+              dict(op=op, a=sa_, b=sb_), ps, pre, budget=budget)
+
+
+# ----------------------------------------------------------------------------- n-ary forms
+def _build_leaf_fibers(ns, xs):
+    pos = 0
+    fibers, cs_all, vs_all = [], [], []
+    for n in ns:
+        cs = list(xs[pos:pos + n]); vs = list(xs[pos + n:pos + 2 * n]); pos += 2 * n
+        fibers.append(Fiber(cs, vs)); cs_all.append(cs); vs_all.append(vs)
+    return fibers, cs_all, vs_all
+
+
+def _find(cs, vs, c):
+    """index of present coordinate c in (cs, vs) or None"""
+    for i in range(len(cs)):
+        if cs[i] == c and vs[i] != 0:
+            return i
+    return None
+
+
+def nary(sk, *xs):
+    kind, ns = sk["kind"], sk["ns"]
+    fs, cs, vs = _build_leaf_fibers(ns, xs)
+    snaps = [raw(f) for f in fs]
+    k = len(fs)
+    if kind == "union":
+        z = Fiber.union(*fs)
+    elif kind == "intersection":
+        z = Fiber.intersection(*fs)
+    else:
+        z = Fiber.intersection(*fs, style="leader-follower")
+    got = [(c, pv(p)) for c, p in z]
+    # candidate coordinates: present ones of every operand, duplicate free, ascending
+    cand = []
+    for f in range(k):
+        for i in range(ns[f]):
+            if vs[f][i] != 0:
+                dup = False
+                for c in cand:
+                    if c == cs[f][i]:
+                        dup = True
+                if not dup:
+                    cand.append(cs[f][i])
+    cand.sort()
+    exp = []
+    for c in cand:
+        idx = [_find(cs[f], vs[f], c) for f in range(k)]
+        if kind == "union":
+            exp.append((c, idx))
+        elif kind == "intersection":
+            if all(i is not None for i in idx):
+                exp.append((c, idx))
+        else:
+            if idx[0] is not None:
+                exp.append((c, idx))
+    if len(got) != len(exp):
+        return fail("yielded %d, expected %d" % (len(got), len(exp)))
+    for n in range(len(exp)):
+        c, idx = exp[n]
+        gc, gp = got[n]
+        if gc != c:
+            return fail("coordinate differs")
+        if not isinstance(gp, tuple):
+            return fail("payload is not a flat tuple")
+        if kind == "union":
+            if len(gp) != k + 1:
+                return fail("tuple length")
+            mask = "".join(chr(ord("A") + f) for f in range(k) if idx[f] is not None)
+            if gp[0] != mask:
+                return fail("mask %r expected %r" % (gp[0], mask))
+            vals = gp[1:]
+        else:
+            if len(gp) != k:
+                return fail("tuple length")
+            vals = gp
+        for f in range(k):
+            if isinstance(vals[f], tuple):
+                return fail("payload tuple is nested")
+            if idx[f] is not None:
+                if vals[f] is not fs[f].payloads[idx[f]]:
+                    return fail("operand %d payload is not the stored box" % f)
+            else:
+                if kind == "lf":
+                    # follower: stored payload (possibly an explicit default) or a default
+                    if pv(vals[f]) != 0:
+                        return fail("absent follower payload is not the default")
+                else:
+                    if not isinstance(vals[f], Payload) or vals[f].value != 0:
+                        return fail("absent side is not a default box")
+    for f in range(k):
+        if raw(fs[f]) != snaps[f]:
+            return fail("operand %d changed" % f)
+    return True
+
+
+def _mk_nary(kind, ns, budget=None):
+    ps, pre = [], []
+    for f, n in enumerate(ns):
+        c = names("f%dc" % f, n)
+        ps += c + names("f%dv" % f, n)
+        pre += chain_pre(c)
+    return Ob("%s/%s" % (kind, "-".join(map(str, ns))), "nary", dict(kind=kind, ns=list(ns)), ps, pre, budget=budget)
+
+
+# ----------------------------------------------------------------------------- mixed tuple arity
+def mixed_arity(sk, *xs):
+    """a has integer coordinates, b has 2-tuples; a & b and b & a match on the common prefix."""
+    na, nb, flip = sk["na"], sk["nb"], sk["flip"]
+    ac, av = list(xs[:na]), list(xs[na:2 * na])
+    p = 2 * na
+    b0 = list(xs[p:p + nb]); b1 = list(xs[p + nb:p + 2 * nb]); bv = list(xs[p + 2 * nb:p + 3 * nb])
+    bc = [(b0[i], b1[i]) for i in range(nb)]
+    a = Fiber(ac, av)
+    b = Fiber(bc, bv)
+    sa, sb = raw(a), raw(b)
+    z = (b & a) if flip else (a & b)
+    got = [(c, pv(p_)) for c, p_ in z]
+    exp = []
+    for j in range(nb):
+        if bv[j] == 0:
+            continue
+        for i in range(na):
+            if av[i] != 0 and ac[i] == b0[j]:
+                exp.append((bc[j], i, j))
+    if len(got) != len(exp):
+        return fail("yielded %d expected %d" % (len(got), len(exp)))
+    for n in range(len(exp)):
+        c, i, j = exp[n]
+        gc, gp = got[n]
+        if not (isinstance(gc, tuple) and len(gc) == 2 and gc[0] == c[0] and gc[1] == c[1]):
+            return fail("coordinate differs")
+        pa, pb = (gp[1], gp[0]) if flip else (gp[0], gp[1])
+        if pa is not a.payloads[i] or pb is not b.payloads[j]:
+            return fail("payload identity")
+    if raw(a) != sa or raw(b) != sb:
+        return fail("operand changed")
+    return True
+
+
+def _mk_mixed(na, nb, flip, budget=None):
+    a = names("a", na); b0 = names("p", nb); b1 = names("q", nb)
+    ps = a + names("u", na) + b0 + b1 + names("w", nb)
+    pre = chain_pre(a)
+    for i in range(nb - 1):
+        pre.append("(%s, %s) < (%s, %s)" % (b0[i], b1[i], b0[i + 1], b1[i + 1]))
+    return Ob("mixed/%dx%d/%s" % (na, nb, "ba" if flip else "ab"), "mixed_arity", dict(na=na, nb=nb, flip=flip), ps, pre, budget=budget)
+
+
+# ----------------------------------------------------------------------------- rank declared uncompressed
+def u_rank(sk, lo, span, *xs):
+    """a's rank is declared 'U': a presents every coordinate of its active range; b is compressed."""
+    na, nb, op = sk["na"], sk["nb"], sk["op"]
+    hi = lo + span
+    ac, av = list(xs[:na]), list(xs[na:2 * na])
+    bc, bv = list(xs[2 * na:2 * na + nb]), list(xs[2 * na + nb:2 * na + 2 * nb])
+    a = Fiber(ac, av, active_range=(lo, hi))
+    a.getRankAttrs().setFormat("U")
+    b = Fiber(bc, bv)
+    sa, sb = raw(a), raw(b)
+    z = (a & b) if op == "and" else (a | b)
+    got = [(c, pv(p)) for c, p in z]
+    exp = []
+    if op == "and":
+        for j in range(nb):
+            if bv[j] != 0 and lo <= bc[j] < hi:
+                exp.append(bc[j])
+    else:
+        allc = list(range(lo, hi))
+        for j in range(nb):
+            if bv[j] != 0 and not (lo <= bc[j] < hi):
+                allc.append(bc[j])
+        allc.sort()
+        exp = allc
+    if len(got) != len(exp):
+        return fail("yielded %d expected %d" % (len(got), len(exp)))
+    for n in range(len(exp)):
+        if got[n][0] != exp[n]:
+            return fail("coordinate differs")
+        gp = got[n][1]
+        aval = gp[0] if op == "and" else gp[1]
+        # the a side shows a's value at that coordinate (stored or default)
+        want = 0
+        for i in range(na):
+            if ac[i] == exp[n]:
+                want = av[i]
+        if lo <= exp[n] < hi:
+            if pv(aval) != want:
+                return fail("a-side value differs")
+    if raw(a) != sa or raw(b) != sb:
+        return fail("operand changed")
+    return True
+
+
+def _mk_u(op, na, nb, maxspan, budget=None):
+    a = names("a", na); b = names("b", nb)
+    ps = ["lo", "span"] + a + names("u", na) + b + names("w", nb)
+    pre = ["0 <= span <= %d" % maxspan] + chain_pre(a) + chain_pre(b) + ["lo <= %s < lo + span" % x for x in a]
+    return Ob("urank/%s/%dx%d" % (op, na, nb), "u_rank", dict(op=op, na=na, nb=nb), ps, pre, budget=budget)
+
+
+def obligations(tier):  # noqa: F811
+    obs = []
+    q = tier == "quick"
+    N = 2 if q else 3
+    for op in ("and", "or", "xor", "sub"):
+        for na in range(N + 1):
+            for nb in range(N + 1):
+                obs.append(_mk_binop_leaf(op, na, nb))
+    shapes = [([], [1]), ([1], [1]), ([0], [1]), ([1, 0], [1]), ([1], [0, 1]), ([1, 1], [1])]
+    if not q:
+        shapes += [([1, 1], [1, 1]), ([2], [1, 1]), ([1, 0], [0, 1]), ([2, 1], [1])]
+    for op in ("and", "or", "xor", "sub"):
+        for sa_, sb_ in shapes:
+            obs.append(_mk_interior(op, sa_, sb_))
+    tri = [(1, 1, 1), (2, 1, 1), (1, 2, 1), (1, 1, 2), (0, 1, 1), (1, 0, 2), (2, 2, 0)]
+    if not q:
+        tri += [(2, 2, 1), (2, 1, 2), (1, 2, 2), (2, 2, 2), (3, 1, 1), (1, 1, 1, 1), (2, 1, 1, 0), (1, 0, 1, 2)]
+    for ns in tri:
+        for kind in ("union", "intersection", "lf"):
+            if kind == "lf" and ns[0] == 0:
+                continue
+            obs.append(_mk_nary(kind, ns))
+    for na, nb in ([(0, 1), (1, 0), (1, 1), (1, 2), (2, 2)] if q else [(0, 1), (0, 2), (1, 0), (2, 0), (1, 1), (1, 2), (2, 2), (2, 3), (3, 2)]):
+        for flip in (False, True):
+            obs.append(_mk_mixed(na, nb, flip))
+    for op in ("and", "or"):
+        for na, nb in ([(0, 1), (1, 1), (1, 2)] if q else [(0, 1), (1, 1), (1, 2), (2, 2)]):
+            obs.append(_mk_u(op, na, nb, 3 if q else 4))
+    return obs
